@@ -20,7 +20,7 @@ import Hv.Storage.SessionCrash
 import Hv.Basic.Verdict
 
 namespace Hv.C02
-open Hv.Storage
+open Hv.BlockStore
 
 /-- the disk as `Load` reads it (after its own temp cleanup) -/
 def afterLoad (c : Cfg) (img : Disk) : Disk := img.applyAll (loadOps c img)
